@@ -668,7 +668,7 @@ def correspond(ctx):
     asan_lines = [k[6:] for k, _, needs_asan in KNOWN_CLASSES if needs_asan] + ["find e x25665b257a5d 1 0"]
     sample = [l for (st, l) in cases if st in ("witness", "corpus")]
     rest = [l for (st, l) in gen_list if not l.startswith(("rep ", "repsep "))]
-    sample += rest if ctx.thorough else ctx.rng.sample(rest, min(len(rest), 6000))
+    sample += ctx.rng.sample(rest, min(len(rest), ctx.scale(6000, 40000)))     # a fork under ASan costs ~4 ms
     # the same subjects as a static empty literal for the frontier class
     asan_all = asan_lines + sample
     anl, all_, aml = run_three(ctx, asan_all, drv, interp, model, asan_drv=asan_drv)
@@ -682,11 +682,14 @@ def correspond(ctx):
     n_model_mismatch = 0
     reported = 0
     failing = []
+    voiced = {}
 
     def handle(line, lua, nel, mod, tag=""):
         nonlocal n_model_mismatch, reported
         a = line.split()
         per_op[a[0]] = per_op.get(a[0], 0) + 1
+        if mod != "?":
+            voiced[a[0]] = voiced.get(a[0], 0) + 1
         st, why = verdict(a, lua, nel)
         stats[st] += 1
         if nel.startswith("!"):
@@ -742,6 +745,7 @@ def correspond(ctx):
         "samples": lines[:3] + lines[len(lines) // 2: len(lines) // 2 + 3] + lines[-3:],
         "distribution": {"streams": dist, "per_op": per_op, "port_error_kinds": err_kinds, "verdicts": stats,
                          "asan_cases": len(asan_all),
+                         "cases_with_model_voice_per_op": voiced,
                          "attributed_to_known_finding": attributed},
         "oracle_failures": stats["FAIL"],
         "model_mismatches": n_model_mismatch,
@@ -752,6 +756,9 @@ def correspond(ctx):
 
 
 UNPROVED = [
-    "string.format / strprintf float conversions: differential only",
-    "float math (floor/ceil/fmod on floats): differential only",
+    "string.format / stringbuilder writef / strprintf float conversions: not modelled, differential only",
+    "float math (floor/ceil/fmod/abs/max/min on floats): differential only (the two-argument max/min order defect is modelled abstractly)",
+    "pattern matcher: no theorem that the model's fuel (match_fuel) always suffices (MFuel was never observed in the correspondence), and no theorem that every subject/pattern index read is in bounds except the modelled %f case (AddressSanitizer stream only)",
+    "utf8.len / utf8.offset / utf8.codes loops, strpack option parser (alignment, packsize), string.find plain search, string.byte/char varargs: differential only",
+    "gmatch with captures limit (MAX_CAPTURES = 8) and position captures ('not supported yet' asserts): the port stops; counted as port_undefined_where_lua_defined",
 ]
